@@ -15,13 +15,13 @@ from .logic import Unsupported
 from . import solve
 
 HERE = os.path.dirname(os.path.dirname(os.path.abspath(__file__)))
-CONTRACT_MODULES = ['contracts.c_graph', 'contracts.c_sanitize', 'contracts.c_job', 'contracts.env_asyncio', 'contracts.c_window', 'contracts.c_run', 'contracts.c_corun', 'contracts.c_scheduler', 'contracts.c_build', 'contracts.c_surgery', 'contracts.c_ids']
+CONTRACT_MODULES = ['contracts.c_graph', 'contracts.c_sanitize', 'contracts.c_job', 'contracts.env_asyncio', 'contracts.c_window', 'contracts.c_run', 'contracts.c_corun', 'contracts.c_scheduler', 'contracts.c_build', 'contracts.c_surgery', 'contracts.c_ids', 'contracts.c_init']
 
 
 def load_contracts():
     if HERE not in sys.path:
         sys.path.insert(0, HERE)
-    for m in CONTRACT_MODULES:
+    for m in CONTRACT_MODULES + [x for x in os.environ.get('PYVC_EXTRA_MODULES', '').split(',') if x]:
         importlib.import_module(m)
     return REG
 
